@@ -235,6 +235,11 @@ def run(fx, tier):
     if 'R-OWN' not in v.rules:
         v.rule('R-OWN', 'connack_property reads mqtt_ctx::ca_props, stored only by connect_op::on_connack before the connect can complete or continue')
     capability_source(fx, v, 'C12')
+    # a PINGREQ handed to the sender is written with the next batch whatever else is queued (shared with C06)
+    from c06 import do_write_shape_rule
+    if 'R-CGRAPH' not in v.rules:
+        v.rule('R-CGRAPH', 'do_write(): one forward pass over the queue without early exit; only throttled requests are skipped, and only for lack of quota')
+    do_write_shape_rule(fx, v, 'C12')
     v.expect_min('R-FLOW', 20, 'sources and arming sites × TUs')
     v.expect_min('R-ARITH', 16, 'two timer functions × instantiations × (zero, all-K)')
     v.expect_min('R-CGRAPH', 30, 'ping loop paths')
